@@ -379,6 +379,14 @@ def step (line : String) : String :=
     match parseCfg cs, parseNatList ks, parseCVList (if vs == "-" then "" else vs), parseName sp with
     | some c, some ks, some vs, some sp => (Con.getattr c (ks, vs) sp).render
     | _, _, _, _ => "bad-op"
+  | "srcfname" :: cs :: pre :: keys =>
+    -- the same name built from the *translated* MultiVector.type_name
+    match parseCfg cs, keys.mapM parseNatList with
+    | some c, some kss =>
+      match kss.mapM (fun ks => Src.type_name (SrcEq.algOf c) (ks.map Int.ofNat)) with
+      | .ok tns => pre ++ "_" ++ String.intercalate "_x_" (tns.map String.ofList)
+      | .error e => "raise:" ++ e
+    | _, _ => "bad-op"
   | "fname" :: cs :: pre :: keys =>
     match parseCfg cs, keys.mapM parseNatList with
     | some c, some kss =>
